@@ -435,6 +435,7 @@ package factstore
 // The lazy view skips exactly the header and the blocks of the predicates listed before the queried one.
 //@ func (s *SimpleColumnStore) GetFacts(query, cb)
 //@   requires s != nil && hdrOK(s.predicates, s.predicateFactCount)
+//@   requires 0 <= query.Predicate.Arity && query.Predicate.Arity <= 1024 && (query.Args == nil || len(query.Args) == query.Predicate.Arity)
 //@   guard call readPred: numFacts == 0 || exists i int :: 0 <= i && i < len(s.predicates) && s.predicates[i] == query.Predicate
 //@          && (forall k int :: 0 <= k && k < i ==> s.predicates[k] != query.Predicate)
 //@          && toSkip == 1 + len(s.predicates) + blockOffset(s.predicates, s.predicateFactCount, i) && numFacts == s.predicateFactCount[i] && numFacts > 0
